@@ -399,6 +399,113 @@ class GenList(list):
         return self.pop(0)
 
 
+class _GenExit(BaseException):
+    """unwinds the body of an abandoned lazy generator"""
+
+
+class _Channel(list):
+    """stands in for the list of collected yields while a generator body runs on demand: append() hands one value to the consumer and waits"""
+
+    def __init__(self, gen):
+        super().__init__()
+        self.gen = gen
+
+    def append(self, v):
+        self.gen._hand_over(v)
+
+    def extend(self, vals):
+        for v in vals:
+            self.gen._hand_over(v)
+
+
+class LazyGen:
+    """an interpreted generator function whose body runs only as far as its consumer asks (needed for endless generators).  The body runs on a
+    thread of its own, in strict alternation with the consumer (never concurrently): a yield parks it until the next value is requested."""
+
+    def __init__(self, it, fnode, env):
+        import threading
+        self.it, self.fnode, self.env = it, fnode, env
+        self.env["__yields__"] = _Channel(self)
+        self.resume, self.handoff = threading.Event(), threading.Event()
+        self.thread = None
+        self.value, self.exc, self.finished, self.closed, self.retval = None, None, False, False, None
+        self.depth = it.depth
+        self.cls = None
+
+    def __iter__(self):
+        return self
+
+    def _hand_over(self, v):
+        self.value = v
+        self.depth, self.cls = self.it.depth, CTX.cls
+        self.handoff.set()
+        self.resume.wait()
+        self.resume.clear()
+        if self.closed:
+            raise _GenExit()
+        self.it.depth, CTX.cls = self.depth, self.cls
+
+    def _run(self):
+        self.it.depth, CTX.cls = self.depth, self.cls
+        try:
+            self.it.block(self.fnode.body, self.env)
+        except Ret as r:
+            self.retval = r.v
+        except _GenExit:
+            pass
+        except BaseException as e:                         # Undecided / Raised / internal errors surface at the consumer's next()
+            self.exc = e
+        self.finished = True
+        self.handoff.set()
+
+    def __next__(self):
+        import threading
+        if self.finished:
+            raise StopIteration
+        mine = (self.it.depth, CTX.cls)
+        self.handoff.clear()
+        if self.thread is None:
+            self.thread = threading.Thread(target=self._run, daemon=True)
+            self.thread.start()
+        else:
+            self.resume.set()
+        self.handoff.wait()
+        self.it.depth, CTX.cls = mine
+        if self.exc is not None:
+            e, self.exc = self.exc, None
+            raise e
+        if self.finished:
+            raise StopIteration
+        return self.value
+
+    def close(self):
+        if self.thread is not None and not self.finished and not self.closed:
+            self.closed = True
+            self.handoff.clear()
+            self.resume.set()
+            self.handoff.wait(1)
+
+
+def _is_endless_generator(fnode):
+    """a generator function with a `while <true constant>:` loop that yields: its consumer decides how many values are produced"""
+    stack = list(fnode.body)
+    while stack:
+        x = stack.pop()
+        if isinstance(x, (ast.FunctionDef, ast.AsyncFunctionDef, ast.ClassDef, ast.Lambda)):
+            continue
+        if isinstance(x, ast.While) and isinstance(x.test, ast.Constant) and bool(x.test.value):
+            inner = list(x.body)
+            while inner:
+                y = inner.pop()
+                if isinstance(y, (ast.FunctionDef, ast.AsyncFunctionDef, ast.ClassDef, ast.Lambda)):
+                    continue
+                if isinstance(y, (ast.Yield, ast.YieldFrom)):
+                    return True
+                inner.extend(ast.iter_child_nodes(y))
+        stack.extend(ast.iter_child_nodes(x))
+    return False
+
+
 class Model:
     """Property-specific hooks: primitive summaries and the library model."""
 
@@ -479,6 +586,8 @@ class Interp:
             elif kw:
                 raise Undecided(f"unexpected keyword arguments {sorted(kw)} for {getattr(fnode, 'name', '<lambda>')}")
             is_gen = _is_generator(fnode)
+            if is_gen and _is_endless_generator(fnode):
+                return LazyGen(self, fnode, env)           # `while True: ... yield ...`: produced on demand (next / zip / islice / break decide how far)
             if is_gen:
                 env["__yields__"] = []
             retval = None
@@ -526,6 +635,10 @@ class Interp:
             return self.ext_call(f.name, args, kw)
         if isinstance(f, Opaque):
             return Opaque(f"{f.why}()", f.prov)
+        if isinstance(f, Row) and f._d.get("__class__") in self.prog.classes:
+            fm = self.prog.find_method(f._d["__class__"], "__call__")          # an instance of a class that defines __call__
+            if fm is not None:
+                return self.call_function(fm.mod, fm.node, [f] + list(args), kw, qn=fm.qn)
         if callable(f):
             try:
                 return f(*args, **kw)
@@ -560,6 +673,28 @@ class Interp:
             raise Undecided(f"construction of {clsname} from {type(data).__name__}")
         if clsname in self.prog.classes:
             init = self.prog.find_method(clsname, "__init__")
+            ci = self.prog.classes[clsname]
+            record = "NamedTuple" in ci.bases or any("dataclass" in ast.unparse(d) for d in ci.node.decorator_list)
+            if record and not init:
+                # typing.NamedTuple / @dataclass: the constructor binds the annotated fields in order (defaults from the class body)
+                fields = [(st.target.id, st.value) for c in reversed(self.prog.mro(clsname)) if c in self.prog.classes
+                          for st in self.prog.classes[c].node.body if isinstance(st, ast.AnnAssign) and isinstance(st.target, ast.Name)]
+                names = [f_ for f_, _ in fields]
+                if len(args) > len(names) or any(k_ not in names for k_ in kw):
+                    raise Raised("TypeError", f"{clsname}() got unexpected arguments")
+                vals = dict(zip(names, args))
+                for k_, v_ in kw.items():
+                    if k_ in vals:
+                        raise Raised("TypeError", f"{clsname}() got multiple values for {k_}")
+                    vals[k_] = v_
+                for f_, default in fields:
+                    if f_ not in vals:
+                        if default is None:
+                            raise Raised("TypeError", f"{clsname}() missing argument {f_}")
+                        vals[f_] = self.ev(default, {"__mod__": ci.mod})
+                obj = Row({f_: vals[f_] for f_ in names}, list(names))
+                obj._d["__class__"] = clsname
+                return obj
             obj = Row({"__class__": clsname})
             if init:
                 self.call_function(init.mod, init.node, [obj] + list(args), kw, qn=init.qn)
@@ -763,6 +898,15 @@ class Interp:
                 name = ast.unparse(e.func) if isinstance(e, ast.Call) else ast.unparse(e)
                 text = ast.unparse(e)[:80]
             raise Raised(name, text)
+        elif isinstance(s, ast.Match):
+            subject = self.ev(s.subject, env)
+            for case in s.cases:
+                trial = dict(env)
+                if self.match_pattern(case.pattern, subject, trial) and (case.guard is None or truth(self.ev(case.guard, trial))):
+                    for k_, v_ in trial.items():          # captures are ordinary local bindings
+                        env[k_] = v_
+                    self.block(case.body, env)
+                    break
         elif isinstance(s, ast.With):
             for it in s.items:
                 v = self.ev(it.context_expr, env)
@@ -1073,7 +1217,23 @@ class Interp:
             if isinstance(n.func, ast.Name) and n.func.id == "super":
                 return Row({"__super__": True, "self": env.get("self"), "cls": env.get("__qn__")})
             return self.call(self.ev(n.func, env), args, kw)
-        if isinstance(n, (ast.ListComp, ast.GeneratorExp, ast.SetComp)):
+        if isinstance(n, ast.GeneratorExp):
+            # lazy, as in Python: the outermost iterable is evaluated now, every element only when it is asked for (a consumer that stops early --
+            # zip with a shorter partner, next(), any() -- never evaluates the rest)
+            first = self.iterate(self.ev(n.generators[0].iter, env))
+
+            def gen(i, e, source=None):
+                if i == len(n.generators):
+                    yield self.ev(n.elt, e)
+                    return
+                g = n.generators[i]
+                for item in (source if source is not None else self.iterate(self.ev(g.iter, e))):
+                    e2 = dict(e)
+                    self.assign(g.target, item, e2)
+                    if all(truth(self.ev(c, e2)) for c in g.ifs):
+                        yield from gen(i + 1, e2)
+            return gen(0, env, first)
+        if isinstance(n, (ast.ListComp, ast.SetComp)):
             out = []
             self.comp(n.generators, 0, env, lambda e2: out.append(self.ev(n.elt, e2)))
             return set(out) if isinstance(n, ast.SetComp) else out
@@ -1097,6 +1257,60 @@ class Interp:
             else:
                 out.append(self.ev(e, env))
         return out
+
+    def match_pattern(self, p, v, env):
+        """structural pattern matching (PEP 634) of an abstract value; captures go into `env`"""
+        if isinstance(p, ast.MatchAs):
+            if p.pattern is not None and not self.match_pattern(p.pattern, v, env):
+                return False
+            if p.name is not None:
+                env[p.name] = v
+            return True
+        if isinstance(p, ast.MatchOr):
+            for alt in p.patterns:
+                trial = dict(env)
+                if self.match_pattern(alt, v, trial):
+                    env.update(trial)
+                    return True
+            return False
+        if isinstance(p, ast.MatchValue):
+            return truth(compare(ast.Eq(), v, self.ev(p.value, env)))
+        if isinstance(p, ast.MatchSingleton):
+            return v is p.value or (p.value is None and v is None)
+        if isinstance(p, ast.MatchClass):
+            if p.kwd_patterns:
+                raise Undecided("class pattern with keyword sub-patterns")
+            isinst = self.lib.builtin(self, "isinstance")
+            if not truth(isinst(v, self.ev(p.cls, env))):
+                return False
+            if not p.patterns:
+                return True
+            if len(p.patterns) == 1 and ast.unparse(p.cls) in ("int", "str", "float", "bool", "tuple", "list", "bytes", "dict", "set", "frozenset"):
+                return self.match_pattern(p.patterns[0], v, env)          # builtin classes match their single positional sub-pattern against the subject itself
+            raise Undecided("class pattern with positional sub-patterns")
+        if isinstance(p, ast.MatchSequence):
+            if isinstance(v, (str, bytes, dict, set, frozenset)) or not isinstance(v, (list, tuple)):
+                if isinstance(v, (Vec, GA, DF, Opaque)) or hasattr(v, "abs_iter"):
+                    if isinstance(v, Opaque):
+                        raise Undecided("sequence pattern on an unmodelled value")
+                    return False                          # arrays / tables are not `collections.abc.Sequence`s
+                return False
+            items = list(v)
+            stars = [i for i, q in enumerate(p.patterns) if isinstance(q, ast.MatchStar)]
+            if not stars:
+                return len(items) == len(p.patterns) and all(self.match_pattern(q, x, env) for q, x in zip(p.patterns, items))
+            i = stars[0]
+            after = len(p.patterns) - i - 1
+            if len(items) < len(p.patterns) - 1:
+                return False
+            if not all(self.match_pattern(q, x, env) for q, x in zip(p.patterns[:i], items[:i])):
+                return False
+            if after and not all(self.match_pattern(q, x, env) for q, x in zip(p.patterns[i + 1:], items[len(items) - after:])):
+                return False
+            if p.patterns[i].name is not None:
+                env[p.patterns[i].name] = list(items[i:len(items) - after])
+            return True
+        raise Undecided(f"pattern {type(p).__name__}")
 
     def comp(self, gens, i, env, emit):
         if i == len(gens):
